@@ -1015,9 +1015,9 @@ NMULTI = H.part("VF_NMULTI", 3)
 _MPERMS = list(itertools.permutations(range(NMULTI)))
 
 
-def route_multi(pi: int, where: int, use_none: bool, s0: bool, s1: bool, s2: bool, s3: bool) -> bool:
+def route_multi(pi: int, where: int, use_none: bool, s0: bool, s1: bool, s2: bool, s3: bool, same: int = 0) -> bool:
     """
-    pre: 0 <= pi < len(_MPERMS) and 0 <= where <= 3
+    pre: 0 <= pi < len(_MPERMS) and 0 <= where <= 3 and 0 <= same <= 2
     pre: not use_none or not (s0 or s1 or s2 or s3)
     pre: NMULTI >= 4 or not s3
     post: _
@@ -1026,7 +1026,11 @@ def route_multi(pi: int, where: int, use_none: bool, s0: bool, s1: bool, s2: boo
     sel = [s0, s1, s2, s3]
     perm = H.pick(_MPERMS, pi)
     req = [("Song", _body("Song", 1)), ("SyncTrack", _body("Sync", 1)), ("Events", _body("Ev", 1))]
-    tracks = [(names[k], _body("M%d" % k, 1 + k)) for k in perm]
+    # section bodies: all different / line-for-line identical (co-op copied from lead, a difficulty copied
+    # down) / all empty (placeholders): each section still yields its own track under its own key
+    def body_of(k):
+        return _body("M%d" % k, 1 + k) if same == 0 else (_body("M", 2) if same == 1 else [])
+    tracks = [(names[k], body_of(k)) for k in perm]
     # the required sections are placed before / between / after the instrument sections
     if where == 0:
         sections = req + tracks
@@ -1060,7 +1064,7 @@ def route_multi(pi: int, where: int, use_none: bool, s0: bool, s1: bool, s2: boo
         if chosen and present:
             n_expected += 1
             t = got[ins][dif]
-            ok = ok and t.instrument is ins and t.difficulty is dif and t.lines == _body("M%d" % k, 1 + k)
+            ok = ok and t.instrument is ins and t.difficulty is dif and t.lines == body_of(k)
     ok = ok and sum(len(v) for v in got.values()) == n_expected
     ok = ok and len([c for c in rec.calls if c[0] == "track"]) == n_expected
     return done(ok)
